@@ -452,5 +452,5 @@ static void one_case(vh::Ctx & c, uint64_t idx)
 
 int main(int argc, char ** argv)
 {
-  return vh::run(argc, argv, "C08", {6000, 100000}, one_case);
+  return vh::run(argc, argv, "C08", {12000, 100000}, one_case);
 }
